@@ -29,7 +29,7 @@ impl<'a> FciParser<'a> for Sli<'a> {
     const FCI_FORMAT: u8 = 2;
 
     fn parse(data: &'a [u8]) -> Result<Self, RtcpParseError> {
-        if data.len() < 4 {
+        if !data.is_empty() && data.len() < 4 {
             return Err(RtcpParseError::Truncated {
                 expected: 4,
                 actual: data.len(),
